@@ -239,6 +239,17 @@ class CachedStore(Entity):
             existed_in_store = yield from self._backing_store.delete(key)
         finally:
             self._end_write(key)
+        # The delete has just wiped the key from the backing store. An entry that
+        # was re-created while the delete was in flight is still good only if its
+        # value has yet to reach the backing store (dirty, or a write-through put
+        # still in flight). A clean one was wiped along with it: keeping it would
+        # serve a value that vanishes as soon as the entry leaves the cache.
+        if (
+            key in self._cache
+            and key not in self._dirty_keys
+            and key not in self._inflight_writes
+        ):
+            self._cache_remove(key)
         return existed_in_cache or existed_in_store
 
     def invalidate(self, key: str) -> None:
